@@ -3,6 +3,7 @@ import VlsModel.Gen.FnVelocity
 import VlsModel.Gen.FnPersistModel
 import VlsModel.Gen.FnApprover
 import VlsModel.Gen.FnApproveTrait
+import VlsModel.Gen.FnNodeAdd
 import VlsModel.Lemmas.FnGen
 /-
 C12 — the hand-written model `Model/Velocity.lean` proved equal to the function bodies that
@@ -394,5 +395,249 @@ example : Approve.handle_proposed_keysend (SelfT := Unit) (Node := Unit) (Public
     (fun _ => ()) (fun _ => 5) (fun _ h _ _ => .ok ((), h)) (fun _ _ _ => .ok false) (fun _ _ _ => true) (fun _ _ _ _ => .ok false)
     () () () 7 1000 = .ok false := rfl
 end InsertionSites
+
+/-! ## Round 10 (b4): `Node::add_invoice` / `Node::add_keysend` of vls-core/src/node.rs — the two places where the node's
+payment velocity control is fed
+
+Target list `translate/fn_targets/NodeAdd.b4.json` (area `NodeAdd`).  The two functions were outside the subset only for the
+`defer! { trace_node_state!(..) }` statement (a log line at scope exit), `self.get_state()` (its body, `C06_fn_get_state`) and
+`entry(k).or_insert_with(RoutedPayment::new)`; with these three declared normalisations the whole bodies are translated:
+validator call, `payment_state_from_invoice` / `payment_state_from_keysend` (translated too), the `max_invoices` bound, the
+already-have-it shortcut, the clock read under the lock, `velocity_control.insert`, the two registrations and the persist.
+`VelocityControl::insert` / `velocity` of velocity.rs are translated a third time inside `Gen.FnNodeAdd`, hence
+`C12_fn_add_insert` (the proof of `C12_fn_insert` over this copy).
+
+The theorems are stated directly on the generated definitions: **every new registration of an approved amount goes through
+`VC.insert` of the node's control at the clock's second with exactly the registered amount; a refusal registers nothing; the
+shortcut for an amount already registered changes nothing** (that is what `C12_main` / `C12_restart` assume of the node: the
+sequence of `insert` calls IS the sequence of approvals).  Seeds of this kind: C12-r2-2 (registration moved before the
+`insert`), C12-r3-2 (boolean of `add_invoice` dropped: `C12_fn_handle_proposed_invoice`). -/
+section NodeAdd
+open VlsModel.Gen
+open VlsModel.Gen.FnNodeAdd (Node NodeState PaymentState RoutedPayment PaymentType)
+
+def toVCn (g : FnNodeAdd.VelocityControl) : VC :=
+  { start := g.start_sec, bi := g.bucket_interval, buckets := g.buckets, limit := g.limit }
+
+def toResN (r : Rs.M (FnNodeAdd.VelocityControl × Bool)) : Option (VC × Bool) :=
+  match r with
+  | .ok (g, b) => some (toVCn g, b)
+  | .error _ => none
+
+theorem C12_fn_add_shift_loop (n : Nat) : ∀ s : FnNodeAdd.VelocityControl,
+    Rs.iter (fun s : FnNodeAdd.VelocityControl => { s with buckets := 0 :: s.buckets }) n s
+      = { s with buckets := List.replicate n 0 ++ s.buckets } := by
+  induction n with
+  | zero => intro s; rfl
+  | succ k ih => intro s; simp [Rs.iter, ih, List.replicate_succ', List.append_assoc]
+
+/-- the copy of `insert` inside `Gen.FnNodeAdd` is the model's `VC.insert` (proof of `C12_fn_insert`) -/
+theorem C12_fn_add_insert (g : FnNodeAdd.VelocityControl) (now amt : Nat) :
+    toResN (g.insert now amt) = (toVCn g).insert now amt := by
+  unfold FnNodeAdd.VelocityControl.insert VC.insert
+  by_cases h1 : now < g.start_sec
+  · simp [toVCn, h1, Rs.usub, Nat.not_le.mpr h1, toResN, Rs.overflow]
+  · by_cases h2 : g.bucket_interval = 0
+    · simp [toVCn, h1, h2, Rs.usub, Nat.le_of_not_lt h1, Rs.udiv, toResN, Rs.panic]
+    · have hle : g.start_sec ≤ now := Nat.le_of_not_lt h1
+      simp only [toVCn, h1, h2, Rs.usub, hle, Rs.udiv, Rs.urem, Nat.min_le_left, if_true, if_false, false_or,
+        Rs.bind_ok, Rs.pure_eq]
+      rw [Rs.foldlM_ok _ (fun s : FnNodeAdd.VelocityControl => { s with buckets := 0 :: s.buckets })
+        (by intro s x; simp [Rs.vecInsert_zero])]
+      simp only [Rs.range_length, C12_fn_add_shift_loop, Rs.bind_ok, h2, if_false, Nat.mod_le, if_true, Nat.sub_zero]
+      rw [Rs.vecResize_le _ _ _ (Nat.sub_le _ _)]
+      have hB : ∀ k, shift g.buckets k = List.replicate k 0 ++ g.buckets.take (g.buckets.length - k) := fun _ => rfl
+      simp only [hB]
+      generalize List.replicate _ 0 ++ List.take _ g.buckets = B
+      have hv : ∀ (a c : Nat) (b : List Nat) (l : Nat),
+          (FnNodeAdd.VelocityControl.velocity { start_sec := a, bucket_interval := c, buckets := b, limit := l })
+            = (VC.velocity { start := a, bi := c, buckets := b, limit := l }) := fun _ _ _ _ => rfl
+      have hs : ∀ a b, Rs.usatAdd Rs.U64_MAX a b = U64.satAdd a b := fun _ _ => rfl
+      simp only [hv, hs]
+      cases B with
+      | nil =>
+        simp only [Rs.index, List.getElem?_nil, Rs.panic, Rs.bind_err]
+        split <;> simp_all [toResN, toVCn]
+      | cons x xs =>
+        simp only [Rs.index, Rs.setIndex, List.getElem?_cons_zero, Rs.bind_ok, Rs.pure_eq, List.length_cons,
+          Nat.zero_lt_succ, if_true, List.set_cons_zero]
+        split <;> simp_all [toResN, toVCn]
+
+variable {Clock PaymentHash PublicKey Duration ChannelId PaymentPreimage Persist Invoice Validator Policy : Type}
+  [DecidableEq PaymentHash]
+
+/-- what a successful `add_*` call may have done to the node, for the payment `hash` with the state `ps` / invoice hash `ih`
+    derived from the request, at the clock's second `now`: either the very same approval was registered before and nothing
+    at all changes, or the hash was not registered, the node's control is the model's `VC.insert now ps.amount_msat` of the
+    control before with the answer `b`, a refusal leaves invoices and payments as they were, and an acceptance registers
+    exactly `ps` under `hash`, keeps an existing routed payment (or creates the empty one) and was persisted. -/
+def AddOutcome (upd : Persist → PublicKey → NodeState PaymentHash PublicKey Duration ChannelId PaymentPreimage → Rs.M Unit)
+    (nid : PublicKey) (self self' : Node Clock PaymentHash PublicKey Duration ChannelId PaymentPreimage Persist)
+    (hash : PaymentHash) (ps : PaymentState PublicKey Duration) (ih : List Nat) (now : Nat) (b : Bool) : Prop :=
+  (∃ old, Rs.omapGet self.state.invoices hash = some old ∧ old.invoice_hash = ih ∧ self' = self ∧ b = true) ∨
+  (Rs.omapGet self.state.invoices hash = none ∧
+    (toVCn self.state.velocity_control).insert now ps.amount_msat = some (toVCn self'.state.velocity_control, b) ∧
+    self'.persister = self.persister ∧ self'.clock = self.clock ∧
+    (b = false → self'.state.invoices = self.state.invoices ∧ self'.state.payments = self.state.payments) ∧
+    (b = true → self'.state.invoices = Rs.omapInsert self.state.invoices hash ps ∧
+      Rs.omapGet self'.state.payments hash = some ((Rs.omapGet self.state.payments hash).getD RoutedPayment.new) ∧
+      upd self'.persister nid self'.state = .ok ()))
+
+/-- the common tail of the two functions (from the `max_invoices` check on), proved once -/
+theorem C12_fn_add_tail
+    (upd : Persist → PublicKey → NodeState PaymentHash PublicKey Duration ChannelId PaymentPreimage → Rs.M Unit)
+    (nid : PublicKey) (self self' : Node Clock PaymentHash PublicKey Duration ChannelId PaymentPreimage Persist)
+    (hash : PaymentHash) (ps : PaymentState PublicKey Duration) (ih : List Nat) (now : Nat) (b : Bool) (maxInv : Nat)
+    (h : (if (decide (self.state.invoices.length ≥ maxInv)) then (Rs.fail "failed-precondition" : Rs.M _) else
+      match (Rs.omapGet self.state.invoices hash) with
+      | some payment_state =>
+          if (payment_state.invoice_hash == ih) then pure (self, true) else Rs.fail "failed-precondition"
+      | _ => do
+          let (s_3, r_4) ← FnNodeAdd.VelocityControl.insert self.state.velocity_control now ps.amount_msat
+          let self := { self with state := { self.state with velocity_control := s_3 } }
+          if (!r_4) then
+            pure (self, false)
+          else
+            let self := { self with state := { self.state with invoices := (Rs.omapInsert self.state.invoices hash ps) } }
+            let fresh : RoutedPayment ChannelId PaymentPreimage := (RoutedPayment.new)
+            let self := (match (Rs.omapGet self.state.payments hash) with | some _ => self | _ => (let self := { self with state := { self.state with payments := (Rs.omapInsert self.state.payments hash fresh) } }; self))
+            let _ ← Rs.unwrapOk (upd self.persister nid self.state)
+            pure (self, true)) = .ok (self', b)) :
+    self.state.invoices.length < maxInv ∧ AddOutcome upd nid self self' hash ps ih now b := by
+  by_cases hlen : self.state.invoices.length ≥ maxInv
+  · simp [hlen, Rs.fail] at h
+  · refine ⟨Nat.lt_of_not_ge hlen, ?_⟩
+    simp only [hlen, decide_false, Bool.false_eq_true, if_false] at h
+    cases hget : Rs.omapGet self.state.invoices hash with
+    | some old =>
+      left
+      simp only [hget] at h
+      by_cases he : old.invoice_hash = ih
+      · simp [he] at h
+        exact ⟨old, hget, he, h.1.symm, h.2⟩
+      · simp [he, Rs.fail] at h
+    | none =>
+      right
+      simp only [hget] at h
+      have hins := C12_fn_add_insert self.state.velocity_control now ps.amount_msat
+      cases hi : FnNodeAdd.VelocityControl.insert self.state.velocity_control now ps.amount_msat with
+      | error e => simp [hi, bind, Except.bind] at h
+      | ok res =>
+        obtain ⟨s3, r4⟩ := res
+        rw [hi] at hins
+        simp only [toResN] at hins
+        simp only [hi, Rs.bind_ok] at h
+        cases r4 with
+        | false =>
+          simp at h
+          obtain ⟨h1, h2⟩ := h
+          subst h1; subst h2
+          refine ⟨hget, hins.symm, rfl, rfl, fun _ => ⟨rfl, rfl⟩, ?_⟩
+          intro hb; cases hb
+        | true =>
+          simp only [Bool.not_true, Bool.false_eq_true, if_false] at h
+          cases hp : Rs.omapGet self.state.payments hash with
+          | some rp =>
+            simp only [hp] at h
+            generalize hu : upd _ nid _ = r at h
+            cases r with
+            | error e => cases e <;> simp [Rs.unwrapOk, bind, Except.bind, Rs.panic] at h
+            | ok u =>
+              simp [Rs.unwrapOk] at h
+              obtain ⟨h1, h2⟩ := h
+              subst h1; subst h2
+              refine ⟨hget, hins.symm, rfl, rfl, ?_, fun _ => ⟨rfl, by simp [hp], hu⟩⟩
+              intro hb; cases hb
+          | none =>
+            simp only [hp] at h
+            generalize hu : upd _ nid _ = r at h
+            cases r with
+            | error e => cases e <;> simp [Rs.unwrapOk, bind, Except.bind, Rs.panic] at h
+            | ok u =>
+              simp [Rs.unwrapOk] at h
+              obtain ⟨h1, h2⟩ := h
+              subst h1; subst h2
+              refine ⟨hget, hins.symm, rfl, rfl, ?_, fun _ => ⟨rfl, by simp [Rs.omapGet_omapInsert], hu⟩⟩
+              intro hb; cases hb
+
+/-- **C12_fn_add_invoice**: `Node::add_invoice` as it is in the source now.  Whenever it answers `Ok(b)`: the validator
+    accepted the invoice at the clock's time, the node held fewer than `max_invoices` invoices, and — for the payment
+    hash, amount and invoice hash that `payment_state_from_invoice` reads off the invoice — `AddOutcome`: a NEW
+    registration happens only through the model's `VC.insert` of the node's payment velocity control, at the clock's
+    second, with exactly the amount that is registered; the control's refusal (`Ok(false)`) registers nothing. -/
+theorem C12_fn_add_invoice (vd : Validator) (now : Clock → Duration) (vinv : Validator → Invoice → Duration → Rs.M Unit)
+    (ph : Invoice → PaymentHash) (ihf : Invoice → List Nat) (amt : Invoice → Nat) (payee : Invoice → PublicKey)
+    (dse exp : Invoice → Duration) (pol : Policy) (maxInv : Policy → Nat) (secs : Duration → Nat) (nid : PublicKey)
+    (upd : Persist → PublicKey → NodeState PaymentHash PublicKey Duration ChannelId PaymentPreimage → Rs.M Unit)
+    (self self' : Node Clock PaymentHash PublicKey Duration ChannelId PaymentPreimage Persist) (invoice : Invoice) (b : Bool)
+    (h : Node.add_invoice vd now vinv ph ihf amt payee dse exp pol maxInv secs nid upd self invoice = .ok (self', b)) :
+    vinv vd invoice (now self.clock) = .ok () ∧ self.state.invoices.length < maxInv pol ∧
+    AddOutcome upd nid self self' (ph invoice)
+      { invoice_hash := ihf invoice, amount_msat := amt invoice, payee := payee invoice,
+        duration_since_epoch := dse invoice, expiry_duration := exp invoice, is_fulfilled := false,
+        payment_type := PaymentType.Invoice } (ihf invoice) (secs (now self.clock)) b := by
+  unfold Node.add_invoice Node.payment_state_from_invoice at h
+  cases hv : vinv vd invoice (now self.clock) with
+  | error e => simp [hv, bind, Except.bind] at h
+  | ok u =>
+    simp only [hv, Rs.bind_ok, Rs.pure_eq] at h
+    exact ⟨rfl, C12_fn_add_tail upd nid self self' _ _ _ _ b _ h⟩
+
+/-- **C12_fn_add_keysend**: the same for `Node::add_keysend`; the registered state is the one
+    `payment_state_from_keysend` builds (amount as given, invoice hash = the bytes of the payment hash, 60 s expiry from
+    the clock's time). -/
+theorem C12_fn_add_keysend (now : Clock → Duration) (bytes : PaymentHash → List Nat) (fromSecs : Nat → Duration)
+    (pol : Policy) (maxInv : Policy → Nat) (secs : Duration → Nat) (nid : PublicKey)
+    (upd : Persist → PublicKey → NodeState PaymentHash PublicKey Duration ChannelId PaymentPreimage → Rs.M Unit)
+    (self self' : Node Clock PaymentHash PublicKey Duration ChannelId PaymentPreimage Persist)
+    (payee : PublicKey) (hash : PaymentHash) (amount : Nat) (b : Bool)
+    (h : Node.add_keysend now bytes fromSecs pol maxInv secs nid upd self payee hash amount = .ok (self', b)) :
+    self.state.invoices.length < maxInv pol ∧
+    AddOutcome upd nid self self' hash
+      { invoice_hash := bytes hash, amount_msat := amount, payee := payee,
+        duration_since_epoch := now self.clock, expiry_duration := fromSecs 60, is_fulfilled := false,
+        payment_type := PaymentType.Keysend } (bytes hash) (secs (now self.clock)) b := by
+  unfold Node.add_keysend Node.payment_state_from_keysend at h
+  simp only [Rs.bind_ok, Rs.pure_eq] at h
+  exact C12_fn_add_tail upd nid self self' _ _ _ _ b _ h
+
+/-- the consequence used by `C12_main`: the control after any answered `add_invoice` accounts for the registered amount —
+    if the hash is newly registered (`b = true`, not there before), the model's `insert` accepted exactly that amount -/
+theorem C12_fn_add_invoice_counted (vd : Validator) (now : Clock → Duration) (vinv : Validator → Invoice → Duration → Rs.M Unit)
+    (ph : Invoice → PaymentHash) (ihf : Invoice → List Nat) (amt : Invoice → Nat) (payee : Invoice → PublicKey)
+    (dse exp : Invoice → Duration) (pol : Policy) (maxInv : Policy → Nat) (secs : Duration → Nat) (nid : PublicKey)
+    (upd : Persist → PublicKey → NodeState PaymentHash PublicKey Duration ChannelId PaymentPreimage → Rs.M Unit)
+    (self self' : Node Clock PaymentHash PublicKey Duration ChannelId PaymentPreimage Persist) (invoice : Invoice) (b : Bool)
+    (h : Node.add_invoice vd now vinv ph ihf amt payee dse exp pol maxInv secs nid upd self invoice = .ok (self', b))
+    (hnew : Rs.omapGet self.state.invoices (ph invoice) = none)
+    (hreg : (Rs.omapGet self'.state.invoices (ph invoice)).isSome) :
+    (toVCn self.state.velocity_control).insert (secs (now self.clock)) (amt invoice)
+      = some (toVCn self'.state.velocity_control, true) ∧
+    (Rs.omapGet self'.state.invoices (ph invoice)).map (·.amount_msat) = some (amt invoice) := by
+  obtain ⟨_, _, hout⟩ := C12_fn_add_invoice vd now vinv ph ihf amt payee dse exp pol maxInv secs nid upd self self' invoice b h
+  rcases hout with ⟨old, hold, _⟩ | ⟨_, hins, _, _, hf, ht⟩
+  · rw [hnew] at hold; cases hold
+  · cases b with
+    | false =>
+      rw [(hf rfl).1, hnew] at hreg; cases hreg
+    | true =>
+      refine ⟨hins, ?_⟩
+      rw [(ht rfl).1, Rs.omapGet_omapInsert]; simp
+
+/-- non-vacuity (keysend): limit 1000 per hour-window of 2 buckets, 900 counted; a new keysend of 200 at second 10 is
+    answered `Ok(false)`, nothing is registered, the control is unchanged; a keysend of 100 is registered and counted -/
+example : (Node.add_keysend (Clock := Nat) (PaymentHash := Nat) (PublicKey := Unit) (Duration := Nat) (ChannelId := Nat)
+      (PaymentPreimage := Nat) (Persist := Unit) (Policy := Unit)
+      (fun c => c) (fun h => [h]) (fun s => s) () (fun _ => 5) (fun d => d) () (fun _ _ _ => .ok ())
+      ⟨(), 10, ⟨[], [], ⟨0, 300, [900, 0], 1000⟩⟩⟩ () 7 200)
+    = .ok (⟨(), 10, ⟨[], [], ⟨0, 300, [900, 0], 1000⟩⟩⟩, false) := rfl
+
+example : (Node.add_keysend (Clock := Nat) (PaymentHash := Nat) (PublicKey := Unit) (Duration := Nat) (ChannelId := Nat)
+      (PaymentPreimage := Nat) (Persist := Unit) (Policy := Unit)
+      (fun c => c) (fun h => [h]) (fun s => s) () (fun _ => 5) (fun d => d) () (fun _ _ _ => .ok ())
+      ⟨(), 10, ⟨[], [], ⟨0, 300, [900, 0], 1000⟩⟩⟩ () 7 100)
+    = .ok (⟨(), 10, ⟨[(7, ⟨[7], 100, (), 10, 60, false, .Keysend⟩)], [(7, RoutedPayment.new)], ⟨0, 300, [1000, 0], 1000⟩⟩⟩, true) := rfl
+
+end NodeAdd
 
 end VlsModel.Props.C12Fn
